@@ -69,8 +69,8 @@ Ctx(i) == [P |-> Prog(i), env |-> {}, D |-> Clean]
 Acc(i, w) == AccMaps(Ctx(i), N(i).ast, w)
 AccGreedy(i, w) == AccMaps([P |-> Prog(i), env |-> {}, D |-> [Clean EXCEPT !.greedy = TRUE]], N(i).ast, w)
 
-\* a value bound to the Int option -n that strconv rejects
-BadInt(m) == \E v \in DOMAIN m : v = <<"O", "-n">> /\ \E k \in 1..Len(m[v]) : Join(m[v][k]) \notin SeqToSet(In.validints)
+\* a value bound to the Int option -n or to the Int argument N that strconv rejects
+BadInt(m) == \E v \in DOMAIN m : (v = <<"O", "-n">> \/ v = <<"A", "N">>) /\ \E k \in 1..Len(m[v]) : Join(m[v][k]) \notin SeqToSet(In.validints)
 ConvErr(acc) == \E m \in acc : BadInt(m)
 
 (* cli.go: Cli.parse - version flag in first position *)
